@@ -46,6 +46,10 @@ TRUSTED = [
     "equal in value to Model.getall and to write to no pre-existing object; its allocation / aliasing structure itself "
     "is hand-written from KDConcatDataset._call_getall / KDSubset._call_getall and not compared with the "
     "implementation object by object (caching wrappers are outside it)",
+    "kept accessors: Model.kept_eval answers a kept accessor on the CURRENT stack (the stack at fetch time is not an "
+    "input); the harness renders what the real kept accessors returned as history steps on the stack as it was at that "
+    "moment (after the re-assignments so far) and compares with the model and the spec; the extra item kinds "
+    "(getitem_/getall_<kind>) are checked by the Python oracle only (same index map, other values)",
 ]
 ASSUMPTIONS = [
     "valid stacks: subset entries address existing items of the layer below (negative entries allowed), concats "
@@ -65,6 +69,13 @@ ASSUMPTIONS = [
     "the bulk result they hand out",
     "ModeWrapper on top is constructed with mode 'index' (its own item logic is property C01); its dispose() forwards "
     "(repaired by fixes/C02_mode_wrapper_dispose.patch)",
+    "kept accessors: a bound getitem_x / getall_x of any layer or a ModeWrapper(layer, mode='x') obtained at time t and "
+    "used at t' > t answers like one fetched at t', i.e. as the CURRENT index maps of the layers say, after any "
+    "re-assignment (same / other length; list / ndarray / tensor / tuple) or in-place edit of a KDSubset layer's indices; "
+    "the index map of a stack containing a KDConcatDataset is claimed only while the parts have the lengths they were "
+    "concatenated with (torch's ConcatDataset computes cumulative_sizes once) -- kept == fresh is claimed always",
+    "item / attribute names: any identifier (underscores, digits, names that are prefixes of each other); the kind of a "
+    "getdim_<kind> alias is everything after 'getdim_'; every item kind has its own values / shape tokens",
 ]
 RULE = ("directed cases (index containers list/tuple/range/ndarray/tensor x index types int/numpy/0-d tensor, negative "
         "entries through 5 layers, empty stacks, shadowed attribute environments) + random nestings depth 1-6 over 1-4 "
@@ -77,7 +88,15 @@ RULE = ("directed cases (index containers list/tuple/range/ndarray/tensor x inde
         "extras, then every object re-queried twice (getall, len, all items); random attribute "
         "environments on every node (methods / properties / raising properties / class attributes / instance attributes, "
         "getshape_/getdim_ pairs, names shadowed at several layers), fused_operations / requires_propagate_ctx / collators "
-        "overrides, ModeWrapper on top in 30%, all valid k plus a few invalid; "
+        "overrides, ModeWrapper on top in 30%, all valid k plus a few invalid; names per case out of an alphabet with "
+        "underscores / digits / prefixes of each other (class, class_before_grouping, class_, multi_label_target, x_og, x_2, "
+        "u, u_v, u_, _u, getdim_u, ...) for plain attributes and for the getshape_/getdim_ kinds (every token carries the "
+        "NAME it was defined under; getdim_<k>(), getdim(k) and getshape_<k>() all asked), 1-3 extra item kinds "
+        "getitem_/getall_<kind> with their own values on every root, redefined by 30% of the wrappers; in 60% of the "
+        "stacks with a subset layer a second copy of the stack runs a MUTATION history: 1-5 accessors (getitem_x / "
+        "getall_x / ModeWrapper(mode='x') of the top or of a layer around a subset) fetched and KEPT, 1-3 subset layers "
+        "re-sampled (indices re-assigned with the same / a longer / a shorter map as list / ndarray / tensor / tuple, or "
+        "edited in place), after every step every kept accessor and a fresh one asked for every k; "
         "non-trivial = depth >= 2 and at least one item resolved; distinct by stack shape")
 ALLOWED_AXIOMS = []
 KNOWN_FINDINGS_PROPOSED = []      # the balanced-getall finding is repaired (fixes/C02_balanced_getall_attr.patch)
@@ -143,6 +162,23 @@ KINDS = {"method": ("KMethod", 0), "prop": ("KProp", 1), "cattr": ("KCattr", 2),
 KC_INST = 3
 PLAIN_POOL = ["alpha", "beta", "gamma", "delta"]
 SHAPE_KINDS = ["u", "v"]
+# the name alphabet: underscores, digits, names that are prefixes of each other (a case uses a few of each; cases written
+# before the alphabet was widened carry no "plain" / "skinds" and mean the two lists above)
+PLAIN_NAMES = PLAIN_POOL + ["alpha_2", "al", "beta_gamma_1", "delta_", "_gamma", "get_alpha", "getshape2_u"]
+SHAPE_NAMES = SHAPE_KINDS + ["class", "class_before_grouping", "multi_label_target", "x_og", "x_2", "u_v", "u_", "v2",
+                             "class_", "_u", "getdim_u", "x__y"]
+
+
+def c_plain(case):
+    return list(case.get("plain") or PLAIN_POOL)
+
+
+def c_skinds(case):
+    return list(case.get("skinds") or SHAPE_KINDS)
+
+
+def c_queries(plain, skinds):
+    return list(plain) + ["getshape_" + k for k in skinds] + ["getdim_" + k for k in skinds] + ["getdim_w"]
 MW_TAG = 99
 
 
@@ -244,15 +280,23 @@ def o_attr_ctor_ok(case, top):
 # ---------------------------------------------------------------------------
 # independent oracle: flatten the nesting with list operations
 # ---------------------------------------------------------------------------
-def o_den(t):
-    """('fin', [samples]) or ('cyc', [[samples] per part]); None when the stack is outside the property's domain"""
+IK_BASE, IK_BUMP = 10 ** 6, 10 ** 5
+
+
+def o_den(t, ik=None):
+    """('fin', [samples]) or ('cyc', [[samples] per part]); None when the stack is outside the property's domain.
+    ik = None: item x; ik = j: the j-th extra item kind of the case (case["ikinds"]): sample + (j+1)*IK_BASE at the roots,
+    + IK_BUMP at every wrapper that redefines that kind on the way (node["ri"] == j)"""
     k = t["t"]
     if k == "root":
-        return ("fin", [t["id"] * 1000 + j for j in range(t["n"])])
+        return ("fin", [t["id"] * 1000 + j + (0 if ik is None else (ik + 1) * IK_BASE) for j in range(t["n"])])
     if k == "wrap":
-        return o_den(t["s"])
+        d = o_den(t["s"], ik)
+        if d is None or ik is None or t.get("ri") != ik:
+            return d
+        return ("fin", [v + IK_BUMP for v in d[1]]) if d[0] == "fin" else ("cyc", [[v + IK_BUMP for v in q] for q in d[1]])
     if k == "sub":
-        d = o_den(t["s"])
+        d = o_den(t["s"], ik)
         if d is None:
             return None
         out = []
@@ -262,7 +306,7 @@ def o_den(t):
                 return None
             out.append(v)
         return ("fin", out)
-    parts = [o_den(p) for p in t["parts"]]
+    parts = [o_den(p, ik) for p in t["parts"]]
     if not parts or any(p is None or p[0] != "fin" for p in parts):
         return None
     if t["bal"]:
@@ -433,6 +477,123 @@ def _tname(on):
     return f"node {on[1]}" if on[0] == "n" else f"extra stack {on[1]}"
 
 
+def o_ikinds(case, obs):
+    """the other item kinds (names with underscores / digits / prefixes of each other, different values per kind, some
+    redefined by a wrapper on the way): getitem_<kind>(k) is entry k of the same composed index map over THAT kind's
+    values, getall_<kind>() the whole map"""
+    t = case["stack"]
+    for j, items, hasall, ga in obs.get("ik") or []:
+        kind = case["ikinds"][j]
+        d = o_den(t, j)
+        if d is None:
+            continue
+        for k, it in zip(case["ks"], items):
+            exp = o_at(d, k)
+            if exp is not None and it != exp:
+                return (f"getitem_{kind}({k}) = {it}, the composed index map over the values of {kind!r} gives {exp} "
+                        f"(kind offsets: {[(q, (i + 1) * IK_BASE) for i, q in enumerate(case['ikinds'])]}, +{IK_BUMP} per "
+                        f"redefining wrapper)")
+        no_provider = t_has(t, lambda n: n["t"] == "root" and n["pk"] == "none")
+        balanced = t_has(t, lambda n: n["t"] == "cat" and n["bal"])
+        if d[0] == "fin" and not no_provider and not balanced:
+            if not hasall or ga[0] != "ok" or ga[2] != d[1]:
+                return f"hasattr(stack, 'getall_{kind}') = {hasall}, getall_{kind}() = {ga}; the index map over {kind!r} gives {d[1]}"
+    return None
+
+
+# ---------------------------------------------------------------------------
+# kept accessors and re-sampled index maps (case["mut"]): a history on a second, fresh copy of the stack
+#   {"op": "keep", "slot": j, "on": uid, "what": "item" | "all" | "mw"}   fetch node.getitem_x / node.getall_x /
+#                                                                         build ModeWrapper(node, mode="x") and KEEP it
+#   {"op": "set", "on": uid, "idxs": [...], "ic": container, "how": "assign" | "inplace"}
+#                                                        node.indices = container(idxs)  /  node.indices[:] = idxs
+# after every step every kept accessor and a freshly fetched one are asked for every k
+# ---------------------------------------------------------------------------
+def m_tree(case):
+    """annotated tree of the mutation phase (the caching wrappers are a device of the purity phase: not used here)"""
+    top = annotate(case)
+    for n in o_preorder(top):
+        n.pop("ga", None)
+    return top
+
+
+def m_nodes(top):
+    return {n["uid"]: n for n in o_preorder(top) if n["t"] != "mode"}
+
+
+def m_sizes(top):
+    return {n["uid"]: [t_len(q) for q in n["parts"]] for n in o_preorder(top) if n["t"] == "cat"}
+
+
+def m_cats_fresh(t, sizes0):
+    """torch's ConcatDataset computes its cumulative sizes once: the index map of a concat is claimed while its parts
+    have the lengths they were concatenated with"""
+    return all(sizes0.get(n["uid"]) == [t_len(q) for q in n["parts"]] for n in o_preorder(t) if n["t"] == "cat")
+
+
+def m_inplace(n, st):
+    """can the step be done as an edit of the container the layer holds now?"""
+    cur = n.get("ic", "list")
+    return st["how"] == "inplace" and (cur == "list" or (cur in ("np", "torch") and len(st["idxs"]) == len(n["idxs"])))
+
+
+def m_apply(nodes, st):
+    """the tree after a "set" step; False when the step does not address a subset layer"""
+    n = nodes.get(st["on"])
+    if n is None or n["t"] != "sub":
+        return False
+    if not m_inplace(n, st):
+        n["ic"] = st["ic"] if st["ic"] != "range" or is_range(st["idxs"]) else "list"
+    n["idxs"] = list(st["idxs"])
+    return True
+
+
+def m_ks(t):
+    n = t_len(t)
+    if n is None:
+        return list(range(7))
+    return [k for k in range(-n, n) if k < 3 - n or -3 <= k < 3 or k >= n - 3] + [n]
+
+
+def m_replay(case, obs):
+    """walks the recorded mutation phase: yields (step number, step, slots, probe record, node tree NOW, concats fresh)"""
+    m = obs.get("m")
+    if not m:
+        return
+    top = m_tree(case)
+    nodes = m_nodes(top)
+    sizes0 = m_sizes(top)
+    slots = {}
+    for i, (st, rec) in enumerate(zip(case.get("mut", []), m)):
+        if not rec["ok"]:
+            continue
+        if st["op"] == "keep":
+            slots[st["slot"]] = (st["on"], st["what"], i)
+        else:
+            m_apply(nodes, st)
+        for pr in rec["probes"]:
+            uid = slots[pr[0]][0]
+            yield i, st, slots, pr, nodes[uid], m_cats_fresh(nodes[uid], sizes0)
+
+
+def o_mut(case, obs):
+    """a kept accessor answers like a freshly fetched one, and both as the CURRENT index maps of the layers say"""
+    for i, st, slots, (j, k, kept, fresh), t, cats in m_replay(case, obs):
+        uid, what, at = slots[j]
+        acc = {"item": "getitem_x", "all": "getall_x", "mw": "ModeWrapper(., mode='x')"}[what]
+        done = [f"{b['op']}@{b['on']}" + (f"={b['idxs']}({b['how']})" if b["op"] == "set" else "") for b in case["mut"][:i + 1]]
+        where = (f"node {uid} = {t_shape(t)}: {acc} obtained at step #{at} and kept, "
+                 + (f"asked for k={k} " if what != "all" else "called ") + f"after step #{i} (history: {done})")
+        if kept != fresh:
+            return f"{where}: the kept accessor answers {kept}, a freshly fetched one {fresh}"
+        if not cats:
+            continue
+        msg = o_step(t, {"op": "getall"}, kept) if what == "all" else o_step(t, {"op": "item", "k": k}, kept)
+        if msg:
+            return f"{where}: {msg} (the index maps as they are NOW)"
+    return None
+
+
 def oracle(case, obs):
     if "harness_exception" in obs:
         return "harness exception: " + obs["harness_exception"] + obs.get("tb", "")
@@ -449,7 +610,7 @@ def oracle(case, obs):
             return msg
     if d is None:
         # (the sub-stacks addressed by the history may be valid all the same)
-        return o_history(case, obs) if obs["ctor"] else None
+        return (o_history(case, obs) or o_mut(case, obs)) if obs["ctor"] else None
     if not obs["ctor"]:
         return "a valid stack could not be constructed: " + str(obs.get("ctor_err"))
     if d[0] == "fin":
@@ -480,7 +641,7 @@ def oracle(case, obs):
         for nm in ("util", "util_list", "util_numpy", "util_tensor"):
             if obs[nm][0] != "ok" or obs[nm][2] != d[1]:
                 return f"utils.{nm.replace('util', 'getall').replace('getall_', 'getall_as_')}(stack,'x') = {obs[nm]} but the index map gives {d[1]}"
-    msg = o_history(case, obs)
+    msg = o_history(case, obs) or o_mut(case, obs) or o_ikinds(case, obs)
     if msg:
         return msg
     if sorted(obs["dispose"]) != sorted(o_roots(t)) or obs["dispose"] != o_roots(t):
@@ -529,7 +690,26 @@ def o_attr(case, obs):
         exp = o_query(case, top, nm)
         if got != exp:
             return (f"getattr(stack, {nm!r}) gave {got}; the nearest provider through "
-                    f"{'the chain' if linear else 'the first parts'} is {exp} (found: [node uid, kind code])")
+                    f"{'the chain' if linear else 'the first parts'} is {exp} (found: [node uid, kind code]"
+                    + (f"; it was answered by the definition of {got[3]!r}, another name" if got[0] == "wrongname" else "")
+                    + ")")
+    for nm, got in a.get("dimcall", []):
+        # stack.getdim(<kind>): answered by the first layer that HAS getdim (KDDataset family, a ModeWrapper included)
+        # with the nearest getshape_<kind> from there on; equals the alias getdim_<kind>() unless the alias name itself
+        # is defined on a layer or a ModeWrapper stands above a KDSubset subclass defining getshape_<kind>
+        kind = nm[len("getdim_"):]
+        exp = ["missing"]
+        for i, n in enumerate(path):
+            if n["t"] in ("root", "wrap", "mode"):
+                r = o_nearest(case, path[i:], "getshape_" + kind)
+                exp = r if r[0] == "found" and r[2] == 0 else ["assert"]
+                break
+        if got != exp:
+            return (f"stack.getdim({kind!r}) gave {got}; getshape_{kind} seen from the first KDDataset-family layer is {exp}")
+        alias = dict((q, r) for q, r in a["queries"]).get(nm)
+        if alias is not None and got != alias and not case.get("mw") and not any(o_own(case, n, nm) is not None for n in path):
+            return (f"stack.{nm}() gave {alias} but stack.getdim({kind!r}) gave {got} "
+                    f"(the alias must resolve exactly the kind after 'getdim_')")
     if a["root"] != path[-1]["uid"] and path[-1]["t"] == "root":
         return f"root_dataset is node {a['root']}, the chain ends in node {path[-1]['uid']}"
     layers = [n for n in path if n["t"] in ("sub", "wrap", "mode")]
@@ -580,14 +760,17 @@ _CLASSES = {}
 
 class Tok:
     """what a definition of an attribute environment answers: (uid of the node it was found on, kind code)"""
-    def __init__(self, uid, kc):
-        self.uid, self.kc = uid, kc
+    def __init__(self, uid, kc, name=None):
+        self.uid, self.kc, self.name = uid, kc, name
 
 
 class _ClassAttr:
     """a plain class attribute (non-data descriptor: the instance dict wins over it) that knows the node it is read on"""
+    def __init__(self, name=None):
+        self.name = name
+
     def __get__(self, obj, typ=None):
-        return self if obj is None else Tok(obj._uid, 2)
+        return self if obj is None else Tok(obj._uid, 2, self.name)
 
 
 def _raise_attr(self):
@@ -597,21 +780,23 @@ def _raise_attr(self):
 def _cls_namespace(cls_env):
     ns = {}
     for name, kind in cls_env.items():
+        # (every definition answers with a token that also carries the NAME it was defined under: the per-kind value that
+        # makes a lookup resolved under another name visible)
         if kind == "method":
             if name.startswith("getshape_"):
-                ns[name] = lambda self: (Tok(self._uid, 0),)
+                ns[name] = lambda self, nm=name: (Tok(self._uid, 0, nm),)
             else:
-                ns[name] = lambda self: Tok(self._uid, 0)
+                ns[name] = lambda self, nm=name: Tok(self._uid, 0, nm)
         elif kind == "shape2":
-            ns[name] = lambda self: (Tok(self._uid, 4), 7)
+            ns[name] = lambda self, nm=name: (Tok(self._uid, 4, nm), 7)
         elif kind == "shapent":
-            ns[name] = lambda self: [Tok(self._uid, 5)]
+            ns[name] = lambda self, nm=name: [Tok(self._uid, 5, nm)]
         elif kind == "prop":
-            ns[name] = property(lambda self: Tok(self._uid, 1))
+            ns[name] = property(lambda self, nm=name: Tok(self._uid, 1, nm))
         elif kind == "prop_raise":
             ns[name] = property(_raise_attr)
         elif kind == "cattr":
-            ns[name] = _ClassAttr()
+            ns[name] = _ClassAttr(name)
     return ns
 
 
@@ -740,16 +925,7 @@ def build(case, t, env):
         o.wlog = env["wlog"]
     elif k == "sub":
         inner = build(case, t["s"], env)
-        idxs = t["idxs"]
-        if t.get("ic") == "np":
-            idxs = K["np"].array(idxs, dtype=K["np"].int64)
-        elif t.get("ic") == "torch":
-            idxs = K["torch"].tensor(idxs, dtype=K["torch"].long)
-        elif t.get("ic") == "tuple":
-            idxs = tuple(idxs)
-        elif t.get("ic") == "range":
-            idxs = _as_range(idxs)
-        o = _layer_class(case, t, env)(inner, idxs)
+        o = _layer_class(case, t, env)(inner, _container(t["idxs"], t.get("ic")))
     elif k == "wrap":
         o = _layer_class(case, t, env)(build(case, t["s"], env))
         uid = t["uid"]
@@ -772,10 +948,35 @@ def build(case, t, env):
             cls = type("KDConcatDatasetX", (cls,), _cls_namespace(t["cls"]))
         o = cls(parts, balanced_sampling=t["bal"])
     o.__dict__["_uid"] = t["uid"]
+    for j, kind in enumerate(case.get("ikinds") or []):
+        # the other item kinds: every root provides them (getall_ unless the root provides no getall_x either), a
+        # wrapper with "ri" == j redefines kind j on top of the layer below
+        if k == "root":
+            o.__dict__["getitem_" + kind] = lambda idx, ctx=None, o=o, off=(j + 1) * IK_BASE: o.x[idx] + off
+            if t["pk"] != "none":
+                o.__dict__["getall_" + kind] = lambda o=o, off=(j + 1) * IK_BASE: [v + off for v in o.x]
+        elif k == "wrap" and t.get("ri") == j:
+            o.__dict__["getitem_" + kind] = \
+                lambda idx, ctx=None, o=o, nm="getitem_" + kind: getattr(o.dataset, nm)(idx) + IK_BUMP
+            if hasattr(o.dataset, "getall_" + kind):
+                o.__dict__["getall_" + kind] = lambda o=o, nm="getall_" + kind: [v + IK_BUMP for v in getattr(o.dataset, nm)()]
     for name in t.get("inst", []):
-        o.__dict__[name] = Tok(t["uid"], KC_INST)
+        o.__dict__[name] = Tok(t["uid"], KC_INST, name)
     env["objs"][t["uid"]] = o
     return o
+
+
+def _container(idxs, ic):
+    K = _classes()
+    if ic == "np":
+        return K["np"].array(idxs, dtype=K["np"].int64)
+    if ic == "torch":
+        return K["torch"].tensor(idxs, dtype=K["torch"].long)
+    if ic == "tuple":
+        return tuple(idxs)
+    if ic == "range" and is_range(idxs):
+        return _as_range(idxs)
+    return list(idxs)
 
 
 def _as_range(idxs):
@@ -822,27 +1023,35 @@ def _call(f):
         return ("err", type(e).__name__)
 
 
-def _decode(v):
+def _decode(v, name=None):
     if isinstance(v, (tuple, list)) and v and isinstance(v[0], Tok):
         v = v[0]
     if isinstance(v, Tok):
+        if name is not None and v.name is not None:
+            # getdim_<kind> is answered by a definition of getdim_<kind> or getshape_<kind> for exactly that <kind>,
+            # every other name by a definition of that very name
+            okn = (name, "getshape_" + name[len("getdim_"):]) if name.startswith("getdim_") else (name,)
+            if v.name not in okn:
+                return ["wrongname", v.uid, v.kc, v.name]
         return ["found", v.uid, v.kc]
     return ["other", repr(v)[:60]]
 
 
-def _query(top, name):
+def _query(top, name, call=None):
     try:
-        v = getattr(top, name)
+        v = getattr(top, name) if call is None else call()
     except AttributeError:
         return ["missing"]
-    if callable(v) and not isinstance(v, Tok):
+    except AssertionError:
+        return ["assert"]
+    if call is None and callable(v) and not isinstance(v, Tok):
         try:
             v = v()
         except AssertionError:
             return ["assert"]
         except AttributeError:
             return ["missing-on-call"]
-    return _decode(v)
+    return _decode(v, name)
 
 
 def _build_extra(e, objs):
@@ -916,6 +1125,68 @@ def _history(case, top, env, bulk):
             "returned": [[st, snap, _ints(v)] for st, v, snap in returned]}
 
 
+def _mut_history(case, bulk):
+    """the mutation phase on a fresh copy of the stack (see m_tree): kept accessors vs freshly fetched ones"""
+    K = _classes()
+    steps = case.get("mut") or []
+    if not steps:
+        return None
+    top = m_tree(case)
+    env = {"log": [], "wlog": [], "objs": {}, "table": {}}
+    try:
+        build(case, top, env)
+    except EXPECTED_ERRORS:
+        return None
+    nodes = m_nodes(top)
+
+    def fetch(obj, what):
+        if what == "item":
+            return getattr(obj, "getitem_x")
+        if what == "all":
+            return getattr(obj, "getall_x", None)
+        try:
+            return K["ModeWrapper"](obj, mode="x")
+        except (AssertionError, RuntimeError, TypeError):
+            return None
+
+    def ask(acc, what, k):
+        if acc is None:
+            return "unavailable"
+        try:
+            r = _call(lambda: acc(k) if what == "item" else acc[k])
+        except (AttributeError, TypeError) as e:
+            return type(e).__name__ + ": " + str(e)[:80]
+        return None if isinstance(r, tuple) else int(r)
+    slots = {}
+    out = []
+    for st in steps:
+        ok = False
+        obj = env["objs"].get(st["on"])
+        n = nodes.get(st["on"])
+        if st["op"] == "keep" and n is not None:
+            acc = fetch(obj, st["what"])
+            if acc is not None:
+                slots[st["slot"]] = (st["on"], st["what"], acc)
+                ok = True
+        elif st["op"] == "set" and n is not None and n["t"] == "sub":
+            if m_inplace(n, st):
+                obj.indices[:] = _container(st["idxs"], n.get("ic", "list"))
+            else:
+                obj.indices = _container(st["idxs"], st["ic"])
+            ok = m_apply(nodes, st)
+        rec = {"ok": ok, "probes": []}
+        if ok:
+            for j, (uid, what, acc) in sorted(slots.items()):
+                fresh = fetch(env["objs"][uid], what)
+                if what == "all":
+                    rec["probes"].append([j, None, bulk(acc), ["missing", None, None] if fresh is None else bulk(fresh)])
+                else:
+                    for k in m_ks(nodes[uid]):
+                        rec["probes"].append([j, k, ask(acc, what, k), ask(fresh, what, k)])
+        out.append(rec)
+    return out
+
+
 def all_tags(case):
     return sorted(set(range(5)) | {10 + i for i in range(len(case.get("classes", [])))} | ({MW_TAG} if case.get("mw") else set()))
 
@@ -958,6 +1229,20 @@ def run_impl(case):
     obs["util_numpy"] = bulk(lambda: getall_as_numpy(s, "x"))
     obs["util_tensor"] = bulk(lambda: getall_as_tensor(s, "x"))
     obs["h"] = _history(case, top, env, bulk)
+    obs["m"] = _mut_history(case, bulk)
+    ik = []
+    for j, kind in enumerate(case.get("ikinds") or []):
+        its = []
+        for k in case["ks"]:
+            try:
+                r = _call(lambda: getattr(s, "getitem_" + kind)(k))
+            except (AttributeError, TypeError) as e:
+                its.append(type(e).__name__ + ": " + str(e)[:80])
+                continue
+            its.append(None if isinstance(r, tuple) else int(r))
+        has = hasattr(s, "getall_" + kind)
+        ik.append([j, its, has, bulk(lambda: getattr(s, "getall_" + kind)()) if has else ["missing", None, None]])
+    obs["ik"] = ik
     obs["root"] = s.root_dataset.id
     obs["attr"] = [s.marker, s.getshape_x()[0], s.getdim_x()]
     ws = s.all_wrappers
@@ -974,6 +1259,9 @@ def run_impl(case):
     # attribute delegation / introspection (AttrModel.v)
     a = {}
     a["queries"] = [[nm, _query(s, nm)] for nm in case.get("queries", [])]
+    # the same dim asked as getdim(<kind>) (no alias name to take apart)
+    a["dimcall"] = [[nm, _query(s, nm, call=lambda k=nm[len("getdim_"):]: s.getdim(k))]
+                    for nm in case.get("queries", []) if nm.startswith("getdim_")]
     uid_of = {id(o): u for u, o in env["objs"].items()}
     for nm, key in (("fused_operations", "fused"), ("requires_propagate_ctx", "req")):
         try:
@@ -1063,6 +1351,8 @@ def coq_astack(case, n):
 def _ares(r):
     if r[0] == "found":
         return C("AFound", r[1], Nat(r[2]))
+    if r[0] == "wrongname":
+        return C("AFound", -2 - r[1], Nat(r[2]))     # (answered by a definition of another name: no node of the model)
     return Raw({"missing": "AMissing", "assert": "AAssert"}.get(r[0], "ASpecial"))
 
 
@@ -1113,6 +1403,14 @@ def coq_case(case, obs):
             if rec["getall"] != ["skip"]:
                 hist.append(_hstep(tg[key], "len", None, rec["len"]))
                 hist.append(_hstep(tg[key], "getall", None, rec["getall"]))
+        # kept accessors: what a KEPT accessor returned, as a step on the stack AS IT IS at that moment (the model
+        # takes the current stack as the argument of every access)
+        mh = []
+        for _, _, slots, pr, t, cats in m_replay(case, obs):
+            what = slots[pr[0]][1]
+            if cats and pr[2] != "unavailable" and (what != "mw" or (t_len(t) is not None and -t_len(t) <= pr[1] < t_len(t))):
+                mh.append(_hstep(t, "getall" if what == "all" else "item", pr[1], pr[2]))     # (rendered NOW: t changes)
+        hist += mh[::max(1, len(mh) // 24)]
     return coq((st, list(case["ks"]), o, coq_astack(case, top), ao, hist))
 
 
@@ -1195,17 +1493,34 @@ def _cat_of(t):
 QUERIES = PLAIN_POOL + ["getshape_u", "getshape_v", "getdim_u", "getdim_v", "getdim_w"]
 
 
-def gen_cls_env(rng, base):
+def gen_names(rng):
+    """the names of one case: 4 plain names and 2-4 item kinds out of the alphabet; half of the time a kind together with
+    kinds it is a prefix of / that share its first token (class, class_before_grouping, class_ / x_og, x_2, x__y / u, u_v, u_)"""
+    plain = rng.sample(PLAIN_NAMES, 4) if rng.random() < 0.7 else list(PLAIN_POOL)
+    r = rng.random()
+    if r < 0.5:
+        fam = rng.choice([["class", "class_before_grouping", "class_", "multi_label_target"],
+                          ["x_og", "x_2", "x__y", "multi_label_target"], ["u", "u_v", "u_", "_u"],
+                          ["u", "getdim_u", "v", "v2"], ["class_before_grouping", "multi_label_target", "x_og", "u"]])
+        skinds = rng.sample(fam, rng.choice([2, 3, 3, 4]))
+    elif r < 0.85:
+        skinds = rng.sample(SHAPE_NAMES, rng.choice([2, 3, 4]))
+    else:
+        skinds = list(SHAPE_KINDS)
+    return plain, skinds
+
+
+def gen_cls_env(rng, base, plain=PLAIN_POOL, skinds=SHAPE_KINDS):
     env = {}
-    for nm in PLAIN_POOL:
+    for nm in plain:
         if rng.random() < 0.3:
             env[nm] = rng.choice(["method", "prop", "cattr", "prop", "method", "prop_raise"])
-    for k in SHAPE_KINDS:
-        if rng.random() < (0.45 if base == "root" else 0.2):
+    for k in skinds:
+        if rng.random() < (0.45 if base == "root" else 0.2) * (1.0 if len(skinds) <= 2 else 0.8):
             env["getshape_" + k] = rng.choice(["method", "method", "method", "shape2", "shapent"])
     if rng.random() < (0.12 if base in ("sub", "cat") else 0.012):
         # only classes outside the KDDataset family may define getdim_ themselves (KDDataset.__init__ asserts)
-        env["getdim_" + rng.choice(SHAPE_KINDS)] = "method"
+        env["getdim_" + rng.choice(skinds)] = "method"
     return env
 
 
@@ -1213,10 +1528,12 @@ def decorate(rng, case):
     """attribute environments, class table, introspection overrides, ModeWrapper on top, queries, index types"""
     gid = itertools.count(1)
     classes = []
+    plain, skinds = gen_names(rng)
+    case["plain"], case["skinds"] = plain, skinds
     if rng.random() < 0.6:
         for _ in range(rng.choice([1, 2, 2, 3])):
             base = rng.choice(["sub", "wrap"])
-            spec = {"base": base, "cls": gen_cls_env(rng, base), "fo": [], "req": False}
+            spec = {"base": base, "cls": gen_cls_env(rng, base, plain, skinds), "fo": [], "req": False}
             if base == "wrap":
                 if rng.random() < 0.35:
                     spec["fo"] = [next(gid)]
@@ -1232,7 +1549,7 @@ def decorate(rng, case):
                 t["tag"] = rng.choice(cands)
         if k == "root":
             if rng.random() < 0.6:
-                t["cls"] = gen_cls_env(rng, "root")
+                t["cls"] = gen_cls_env(rng, "root", plain, skinds)
             if rng.random() < 0.2:
                 t["fo"] = [next(gid)]
             if rng.random() < 0.15:
@@ -1240,10 +1557,10 @@ def decorate(rng, case):
             if rng.random() < 0.3:
                 t["coll"] = [next(gid) for _ in range(rng.choice([1, 2]))]
         if k == "cat" and rng.random() < 0.25:
-            t["cls"] = gen_cls_env(rng, "cat")
-        inst = [nm for nm in PLAIN_POOL if rng.random() < 0.12]
+            t["cls"] = gen_cls_env(rng, "cat", plain, skinds)
+        inst = [nm for nm in plain if rng.random() < 0.12]
         if rng.random() < 0.05:
-            inst.append("getdim_" + rng.choice(SHAPE_KINDS))
+            inst.append("getdim_" + rng.choice(skinds))
         if inst:
             t["inst"] = inst
         if k == "cat":
@@ -1252,11 +1569,16 @@ def decorate(rng, case):
         elif k != "root":
             go(t["s"])
     go(case["stack"])
-    case["queries"] = list(QUERIES)
+    case["queries"] = c_queries(plain, skinds)
+    if rng.random() < 0.6:
+        case["ikinds"] = rng.sample(skinds, rng.randint(1, min(3, len(skinds))))
+        for n in o_preorder(case["stack"]):
+            if n["t"] == "wrap" and rng.random() < 0.3:
+                n["ri"] = rng.randrange(len(case["ikinds"]))
     if rng.random() < 0.3 and mw_possible(case):
         case["mw"] = True
         if rng.random() < 0.3:
-            case["mw_inst"] = [rng.choice(PLAIN_POOL)]
+            case["mw_inst"] = [rng.choice(plain)]
     r = rng.random()
     if r < 0.15:
         case["kty"] = "np"
@@ -1315,6 +1637,60 @@ def gen_history(rng, case):
     return case
 
 
+def gen_mut(rng, case, force=False):
+    """kept accessors and re-sampled subsets: accessors (getitem_x / getall_x bound methods, a ModeWrapper(mode="x")) of
+    the top and of inner layers are fetched and kept, the index map of subset layers is replaced (same / other length,
+    list / ndarray / tensor / tuple) or edited in place, more accessors are kept in between"""
+    top = m_tree(case)
+    nodes = m_nodes(top)
+    subs = [n for n in nodes.values() if n["t"] == "sub"]
+    if not subs or not (force or rng.random() < 0.6):
+        return case
+    parent = {}
+    for n in nodes.values():
+        for q in (n["parts"] if n["t"] == "cat" else [] if n["t"] == "root" else [n["s"]]):
+            parent[q["uid"]] = n
+
+    def ancestors(n):
+        out = []
+        while n["uid"] in parent:
+            n = parent[n["uid"]]
+            out.append(n)
+        return out
+    first = min(nodes)
+    mut, slot = [], itertools.count()
+
+    def keep():
+        on = first if rng.random() < 0.5 else rng.choice([a["uid"] for s_ in subs for a in [s_] + ancestors(s_)])
+        mut.append({"op": "keep", "slot": next(slot), "on": on, "what": rng.choice(["item", "item", "all", "mw", "mw"])})
+    for _ in range(rng.choice([1, 2, 2, 3])):
+        keep()
+    for _ in range(rng.choice([1, 1, 2, 3])):
+        n = rng.choice(subs)
+        below = t_len(n["s"])
+        under_cat = any(a["t"] == "cat" for a in ancestors(n))
+        m0 = len(n["idxs"])
+        r = rng.random()
+        m = m0 if (under_cat or r < 0.4) else m0 + rng.choice([1, 2, 3]) if r < 0.75 else max(0, m0 - rng.choice([1, 2]))
+        if below is None:
+            idxs = [rng.randint(0, 9) for _ in range(m)]
+        elif below == 0:
+            idxs = [] if not under_cat else list(n["idxs"])
+        else:
+            idxs = [rng.randint(-below, below - 1) if rng.random() < 0.3 else rng.randint(0, below - 1) for _ in range(m)]
+            if rng.random() < 0.25 and m == m0 and all(-below <= i < below for i in n["idxs"]):
+                idxs = [i % below for i in n["idxs"]]
+                rng.shuffle(idxs)                           # the same samples in another order (a re-shuffled epoch)
+        st = {"op": "set", "on": n["uid"], "idxs": idxs, "ic": rng.choice(["list", "list", "np", "np", "torch", "tuple"]),
+              "how": rng.choice(["assign", "assign", "inplace"])}
+        mut.append(st)
+        m_apply(nodes, st)
+        if rng.random() < 0.4:
+            keep()
+    case["mut"] = mut
+    return case
+
+
 def sanitize(case):
     """drops history steps / extra stacks whose references no longer exist (after the stack was shrunk)"""
     tg = h_targets(case)
@@ -1353,7 +1729,7 @@ def gen_case(rng, big=False):
         ks = list(range(0, 2 * total + 3)) + [-1, -2, -total, -total - 1]
     else:
         ks = list(range(-n, n)) + [n, -n - 1, n + 3]
-    return gen_history(rng, decorate(rng, {"stack": t, "ks": ks}))
+    return gen_mut(rng, gen_history(rng, decorate(rng, {"stack": t, "ks": ks})))
 
 
 def _root(id, n, pk="list", **kw):
@@ -1454,6 +1830,24 @@ def directed_cases():
                 acc=[G("n", 0), G("n", 1), G("n", 0), U("n", 5), G("n", 2)], mw=(pk0 == "list"))
             add(_sub([2, 2, 0], _wrap(_root(0, 3, pk=pk0), ga="cache")), extra=[{"t": "wrap", "s": ref(2)}],
                 acc=[G("n", 0), G("n", 1), G("e", 0), G("n", 0), It(1, "n", 0)])
+    # kept accessors / a ModeWrapper built before a subset layer is re-sampled (same and other length, list / ndarray,
+    # assigned / edited in place), directly, through wrappers, nested subsets and a concat
+    def Kp(j, on, what):
+        return {"op": "keep", "slot": j, "on": on, "what": what}
+
+    def St(on, idxs, ic="list", how="assign"):
+        return {"op": "set", "on": on, "idxs": list(idxs), "ic": ic, "how": how}
+    for ic in ("list", "np", "torch", "tuple"):
+        for ic2 in ("list", "np"):
+            for how in ("assign", "inplace"):
+                add(_wrap(_sub([0, 1, 2, 3], _root(0, 10), ic=ic)),
+                    mut=[Kp(0, 0, "item"), Kp(1, 0, "mw"), Kp(2, 0, "all"), Kp(3, 1, "item"), St(1, [9, 8, 7, 6], ic2, how),
+                         St(1, [5, 5], ic2, how), Kp(4, 0, "mw"), St(1, [1, 2, 3, 4, 5, 6], ic2, how)])
+                add(_sub([1, 0], _sub([0, 5], _cat([_root(0, 5), _root(1, 6)]), ic=ic), ic=ic2, tag=1),
+                    mut=[Kp(0, 0, "mw"), Kp(1, 0, "item"), Kp(2, 1, "item"), St(1, [10, 4], ic2, how), Kp(3, 0, "all"),
+                         St(0, [0, 0, 1], ic, how), St(1, [3, 7, -1], ic2, how)])
+                add(_cat([_sub([2, 0], _root(0, 3), ic=ic), _wrap(_sub([1], _root(1, 2), ic=ic2))]),
+                    mut=[Kp(0, 0, "item"), Kp(1, 0, "all"), Kp(2, 1, "item"), St(1, [1, 1], ic2, how), St(4, [0], ic, how)])
     return out
 
 
@@ -1513,13 +1907,21 @@ def features(case, obs):
                 + "=" + r[0] + (("/kind%d" % r[2]) if r[0] == "found" else "")
         top = annotate(case)
         path = o_path(top)
-        for nm in PLAIN_POOL:
+        for nm in c_plain(case):
             prov = [n["uid"] for n in path if o_own(case, n, nm) is not None]
             if len(prov) > 1:
                 yield "name-shadowed-at-several-layers"
                 break
         for tg, r in a["oftype1"]:
             yield "get_wrapper_of_type=" + r[0]
+    for st in case.get("mut") or []:
+        yield "mut:" + (("keep-" + st["what"]) if st["op"] == "keep" else ("set-" + st["how"] + "-" + st["ic"]))
+    for nm in case.get("ikinds") or []:
+        yield "extra-item-kind" + ("-with-underscore" if "_" in nm else "")
+    for nm in case.get("skinds") or []:
+        if "_" in nm:
+            yield "item-kind-with-underscore"
+            break
     yield "getall=" + (obs.get("getall") or ["n/a"])[0]
     yield "util=" + (obs.get("util") or ["n/a"])[0]
 
@@ -1530,11 +1932,37 @@ def nontrivial_key(case, obs):
     return t_shape(case["stack"])
 
 
+def c_valid(case):
+    """the stack is inside the property's domain, before and after every re-sampling step, and every step addresses a
+    node of the right kind"""
+    if o_den(case["stack"]) is None:
+        return False
+    nodes = m_nodes(m_tree(case))
+    for st in case.get("mut") or []:
+        if st["on"] not in nodes:
+            return False
+        if st["op"] == "set" and not (m_apply(nodes, st) and o_den(nodes[min(nodes)]) is not None):
+            return False
+    return True
+
+
 def shrink(case):
+    """smaller cases; a case inside the property's domain is only shrunk to cases inside it (so that the minimised
+    failing input is a valid stack with a valid history)"""
+    ok = c_valid(case)
+    for c in _shrink_raw(case):
+        if ok and not c_valid(c):
+            continue
+        yield c
+
+
+def _shrink_raw(case):
     t = case["stack"]
 
     def variants(t):
         k = t["t"]
+        if t.get("ri") is not None:
+            yield {kk: vv for kk, vv in t.items() if kk != "ri"}
         for key in ("cls", "inst", "fo", "req", "coll", "ga"):
             if t.get(key):
                 yield {kk: vv for kk, vv in t.items() if kk != key}
@@ -1576,6 +2004,15 @@ def shrink(case):
         yield dict(case, acc=[])
         for i in range(len(case["acc"])):
             yield dict(case, acc=case["acc"][:i] + case["acc"][i + 1:])
+    if case.get("ikinds"):
+        yield dict(case, ikinds=[])
+    if case.get("mut"):
+        yield dict(case, mut=[])
+        for i in range(len(case["mut"])):
+            yield dict(case, mut=case["mut"][:i] + case["mut"][i + 1:])
+        for i, st in enumerate(case["mut"]):
+            if st["op"] == "set" and (st["how"] != "assign" or st["ic"] != "list"):
+                yield dict(case, mut=case["mut"][:i] + [dict(st, how="assign", ic="list")] + case["mut"][i + 1:])
     if case.get("extra"):
         yield sanitize(dict(case, extra=[], acc=[a for a in case.get("acc", []) if a["on"][0] != "e"]))
     for v in variants(t):
